@@ -61,7 +61,7 @@ type c03Shape struct {
 	Swap    bool // the application first serves with as many do-nothing middleware, which Handlers() then replaces by the real ones
 	Info    bool `json:",omitempty"` // handlers that write send an informational status (100+position) instead of 201+position
 	Sig     int  `json:",omitempty"` // >0: handlers that return nothing use, by position, the other handler types (func(http.ResponseWriter, *http.Request), http.HandlerFunc, a reflectively invoked func(Context, *http.Request), func(Context) error and func() error returning nil), shifted by Sig
-	SwapN   int  `json:",omitempty"` // with Swap: this many stand-in middleware more than real ones are installed first (one Use call each), so that Handlers() replaces a longer stack by a shorter one
+	SwapN   int  `json:",omitempty"` // with Swap: this many stand-in middleware more than real ones are installed first (one Use call each), so that Handlers() replaces a longer stack by a shorter one; the final action, if any, is then set before that Handlers() call
 	Hollow  bool `json:",omitempty"` // in every group, a nested group without handlers (holding another route) is opened and closed before the next level / the probed route is registered
 	Multi   bool `json:",omitempty"` // the route is registered through Routes with three method names given as separate leading strings
 	Wrap    bool `json:",omitempty"` // a HandlerWrapper (the identity) is configured before anything is registered
@@ -208,6 +208,7 @@ func c03Build(s c03Shape, strMask int) *c03World {
 	}
 	var lateMW flamego.Handler
 	var realMW []flamego.Handler
+	actionSet := false
 	alien := func(c flamego.Context) { w.trace = append(w.trace, c03Ev{K: 'E', I: 90}) }
 	refused := func(what string) {
 		if !s.Refused {
@@ -313,6 +314,13 @@ func c03Build(s c03Shape, strMask int) *c03World {
 			}()
 		}
 		w.trace = w.trace[:0]
+		if s.Action && s.SwapN > 0 {
+			// the final action is set before the middleware stack is replaced: Handlers() replaces the
+			// middleware, nothing else
+			aid := s.M + s.G + s.R
+			w.f.Action(w.mk(aid, strMask&(1<<aid) != 0))
+			actionSet = true
+		}
 		w.f.Handlers(realMW...)
 	}
 	if s.Late {
@@ -333,7 +341,7 @@ func c03Build(s c03Shape, strMask int) *c03World {
 		w.short = strings.TrimSuffix(w.path, "/x") + "/short"
 	}
 	refused("action")
-	if s.Action {
+	if s.Action && !actionSet {
 		w.f.Action(next())
 	}
 	refused("action")
@@ -654,14 +662,14 @@ func c03Run(r *core.Run) {
 			{5, 5, c03Behaviours(1, "T", "G"), "5 positions, base shapes, action strings <=1 plus T, G", 1},
 		}
 	} else {
-		r.SetBudget(70 * time.Second)
+		r.SetBudget(100 * time.Second)
 		mid := []c03Beh{}
 		for _, a := range []string{"", "N", "W", "C", "NN", "NW", "WN", "NC", "T", "TC", "G", "D"} {
 			for _, t := range []int{0, 2, 3} {
 				mid = append(mid, c03Beh{a, t})
 			}
 		}
-		plans = []plan{{1, 3, c03Behaviours(2, "T", "TC", "TN", "TCN", "G", "GN", "D"), "<=3 positions, base shapes, action strings <=2 over {N,W,C} plus T, TC, TN, TCN, G, GN, D (G = Next() guarded by a recover of the handler, D = install a context whose deadline has passed)", 1},
+		plans = []plan{{1, 3, c03Behaviours(2, "T", "TC", "TN", "TCN", "G", "GN"), "<=3 positions, base shapes, action strings <=2 over {N,W,C} plus T, TC, TN, TCN, G, GN (G = Next() guarded by a recover of the handler)", 1},
 			{1, 3, mid, "<=3 positions, variant shapes, actions {'',N,W,C,NN,NW,WN,NC,T,TC} x {nothing,string,panic}", 2},
 			{4, 4, red, "4 positions, actions {'',N,W,NN,C,T,TC} x {nothing,string,panic}", 0}}
 	}
